@@ -14,6 +14,7 @@ import (
 	"google.golang.org/protobuf/encoding/protojson"
 	"google.golang.org/protobuf/internal/testprotos/textpb2"
 	"google.golang.org/protobuf/proto"
+	"google.golang.org/protobuf/types/known/anypb"
 	"google.golang.org/protobuf/types/known/emptypb"
 	"google.golang.org/protobuf/types/known/fieldmaskpb"
 	"google.golang.org/protobuf/types/known/structpb"
@@ -947,6 +948,21 @@ func TestEmpty(t *testing.T) {
 			}
 			if err == nil && strings.TrimSpace(c.Doc) != "null" && kt.OptEmpty == nil {
 				return fmt.Errorf("KnownTypes{opt_empty} <- %s leaves the field unset", c.Doc)
+			}
+			// packed in an Any, Empty is read both with "value":{} (the form other runtimes write) and without a value member
+			for _, doc := range []string{`{"@type":"type.googleapis.com/google.protobuf.Empty","value":` + c.Doc + `}`, `{"value":` + c.Doc + `,"@type":"type.googleapis.com/google.protobuf.Empty"}`} {
+				a := &anypb.Any{}
+				err = protojson.UnmarshalOptions{DiscardUnknown: c.Discard}.Unmarshal([]byte(doc), a)
+				if (err == nil) != c.Accept {
+					return fmt.Errorf("Any <- %s (DiscardUnknown=%v): err=%v, want accept=%v", doc, c.Discard, err, c.Accept)
+				}
+				if err == nil && (a.TypeUrl != "type.googleapis.com/google.protobuf.Empty" || len(a.Value) != 0) {
+					return fmt.Errorf("Any <- %s parsed to %v", doc, a)
+				}
+			}
+			a := &anypb.Any{}
+			if err := protojson.Unmarshal([]byte(`{"@type":"type.googleapis.com/google.protobuf.Empty"}`), a); err != nil || len(a.Value) != 0 {
+				return fmt.Errorf("Any of Empty without a value member: %v, %v", a, err)
 			}
 			return nil
 		})
